@@ -253,6 +253,22 @@ func iosVRFSpace() *space {
 	return sp
 }
 
+// vrf-intf: as vrf, but both sides have interfaces in the global VRF and in
+// VRF A and B, so that every VRF is known to the target even when the
+// target has no route for it ("no routing specified, leaving untouched").
+func iosVRFIntfSpace() *space {
+	base := iosVRFSpace()
+	intf := "interface Ethernet0\n ip address 10.9.1.1 255.255.255.0\n" +
+		"interface Ethernet1\n ip address 10.8.8.2 255.255.255.0\n ip vrf forwarding A\n" +
+		"interface Ethernet2\n ip address 10.7.7.2 255.255.255.0\n ip vrf forwarding B\n"
+	sp := &space{name: "vrf-intf", model: "IOS", n: base.n}
+	sp.gen = func(i int64) (core.Files, core.Files) {
+		a, b := base.gen(i)
+		return core.Files{Main: intf + a.Main}, core.Files{Main: intf + b.Main}
+	}
+	return sp
+}
+
 func iosSpaces(ctx *core.Ctx) []*space {
 	l := []*space{
 		c02ACLSpace("acl", 6, 3),
@@ -260,8 +276,11 @@ func iosSpaces(ctx *core.Ctx) []*space {
 		c02LogSpace(),
 		routePairSpace("IOS"),
 		iosVRFSpace(),
+		iosVRFIntfSpace(),
 		iosIntfSpace(),
 		iosCryptoSpace(),
+		iosEditSpace(),
+		noiseSpace("IOS"),
 		corpusSpace("IOS"),
 	}
 	if ctx.Thorough() {
@@ -274,6 +293,7 @@ func c02Worker(ctx *core.Ctx) *core.Result {
 	x := newApprovex(ctx, "C02", oracles{conv: true})
 	defer x.sc.Close()
 	x.runSpaces(iosSpaces(ctx))
+	x.runNoise("IOS", 0)
 	x.runChain("IOS", ctx)
 	return x.res
 }
@@ -281,7 +301,7 @@ func c02Worker(ctx *core.Ctx) *core.Result {
 func init() {
 	registerSharded("C02", c02Worker, func(tier string) core.Meta {
 		return core.Meta{ID: "C02", Level: "model_checking",
-			Rule:        "states = distinct device-model states (per worker, summed); transitions = runs of the real planner; enumerated: all (device,target) pairs of the spaces acl (block structured, device printed with and without IOS-XE sequence numbers), acl-log (the same rule with none/log/log-input on either side, len<=4), rt, vrf, intf, crypto, corpus (ios_*.t) and a breadth-first chain of approves; the script is executed on the reference IOS model (sequence numbers, resequence, interface and crypto-map sub-modes); oracle: per managed interface the bound ACLs as sequences of maximal same-action runs (each a set), routes per VRF the target mentions, second compare silent for both print forms, empty script only for an equivalent device",
+			Rule:        "states = distinct device-model states (per worker, summed); transitions = runs of the real planner; enumerated: all (device,target) pairs of the spaces acl (block structured, device printed with and without IOS-XE sequence numbers), acl-log (the same rule with none/log/log-input on either side, len<=4), rt, vrf, vrf-intf (every VRF known through an interface), intf, crypto, value-edit (one argument token of the target changed by a single-character edit), noise (one unmodelled toplevel block inserted at every toplevel position; the script must equal the one without it), corpus (ios_*.t) and a breadth-first chain of approves; the script is executed on the reference IOS model (sequence numbers, resequence, interface and crypto-map sub-modes); oracle: per managed interface the bound ACLs as sequences of maximal same-action runs (each a set), routes per VRF the target mentions, second compare silent for both print forms, empty script only for an equivalent device",
 			Assumptions: []string{"reference IOS model validated against the repository's DEVICE/NETSPOC/OUTPUT triples"},
 			Bounds:      map[string]any{"quick": "acl len<=3 over 6 lines, len<=4 over 5 lines, log variants len<=4", "thorough": "acl len<=4 over 8 lines"},
 		}
